@@ -16,6 +16,7 @@ import (
 	"strings"
 	"sync"
 	"sync/atomic"
+	"time"
 )
 
 // ErrClosed is what Read/Write return after Close, like a closed socket.
@@ -76,6 +77,11 @@ type Transport struct {
 	readerGID int64
 	readGates map[int64]*Gate // by read call index (1-based)
 	bytesRead int64
+	// soft EOF window: while softFrom <= bytesRead < softTo a Read that
+	// finds nothing to deliver returns (0, io.EOF) after a short pause
+	// instead of blocking ("nothing there at the moment")
+	softFrom, softTo int64
+	softReads        int64
 
 	// write half
 	wmu        sync.Mutex
@@ -198,11 +204,36 @@ func (t *Transport) Read(p []byte) (int, error) {
 			t.termReads++
 			return 0, t.termErr
 		}
+		if t.bytesRead >= t.softFrom && t.bytesRead < t.softTo {
+			t.softReads++
+			t.rmu.Unlock()
+			time.Sleep(2 * time.Millisecond)
+			t.rmu.Lock()
+			if len(t.chunks) > 0 || t.closed {
+				continue
+			}
+			return 0, io.EOF
+		}
 		t.parked = true
 		t.rcond.Broadcast()
 		t.rcond.Wait()
 		t.parked = false
 	}
+}
+
+// SoftEOF sets the window of stream offsets (bytes delivered so far) inside
+// which a Read that finds nothing returns (0, io.EOF) instead of blocking.
+func (t *Transport) SoftEOF(from, to int64) {
+	t.rmu.Lock()
+	t.softFrom, t.softTo = from, to
+	t.rmu.Unlock()
+}
+
+// SoftReads is the number of Read calls answered with the transient EOF.
+func (t *Transport) SoftReads() int64 {
+	t.rmu.Lock()
+	defer t.rmu.Unlock()
+	return t.softReads
 }
 
 // AwaitIdle blocks until a Read call is parked with nothing left to
